@@ -56,10 +56,14 @@ def opNe (dv : Option Val) (sv : Val) : Bool :=
   | some (.arr xs) => if sv.isArr then !operatorEq dv sv else xs.all (fun x => !operatorEq (some x) sv)
   | _ => !operatorEq dv sv
 
-/-- `_not_nothing_and(_list_expand(_compare_objects(op)))` -/
+/-- `_sorting_operator(op)`: `_list_expand(_compare_objects(op))`, a missing field being compared
+    as null against a null operand and never matching another operand -/
 def opCmp (op : CmpOp) (dv : Option Val) (sv : Val) : R Bool :=
   match dv with
-  | none => .ok false
+  | none =>
+    match sv with
+    | .null => bsonCompare op .null .null false
+    | _ => .ok false
   | some (.arr xs) =>
     if sv.isArr then bsonCompare op (.arr xs) sv false
     else anyM (fun x => bsonCompare op x sv false) xs
@@ -70,8 +74,12 @@ def forceList : Option Val → List (Option Val)
   | some (.arr xs) => xs.map some
   | dv => [dv]
 
+/-- `x in dv or (x is None and NOTHING in dv)` (`_all_op`): NOTHING is `==` to no value, a null
+    item is also met by it -/
 def pyInOpt (x : Val) (dvs : List (Option Val)) : Bool :=
-  dvs.any (fun c => match c with | some v => pyEq v x | none => false)
+  dvs.any (fun c => match c with
+    | some v => pyEq v x
+    | none => match x with | .null => true | _ => false)
 
 /-- `_in_op` (no compiled regular expressions among the operands) -/
 def opIn (dv : Option Val) (sv : Val) : R Bool :=
@@ -85,9 +93,7 @@ def opIn (dv : Option Val) (sv : Val) : R Bool :=
 def opSize (dv : Option Val) (sv : Val) : Bool :=
   match dv with
   | some (.arr xs) => pyEq sv (.int xs.length)
-  | some (.doc fs) => pyEq sv (.int fs.length)
-  | some v => if v.truthy then pyEq sv (.int 1) else false
-  | none => false
+  | _ => false
 
 def typeAliases : List String :=
   ["double", "string", "object", "array", "binData", "undefined", "objectId", "bool", "date",
@@ -276,16 +282,15 @@ mutual
     | [], _ => .ok true
     | (key, search) :: rest, d =>
       if key = "$comment" then applyFields rest d
-      else if logicalKeys.contains key then
+      else if logicalKeys.contains key && key != "$not" then   -- `$not` is no top-level operator
         if !search.truthy then .error .opFail
         else do
           let ok ← (match search with
             | .arr qs =>
               if key = "$or" then anyApply qs d
               else if key = "$and" then allApply qs d
-              else if key = "$nor" then norApply qs d
-              else .ok true                       -- `$not`: a generator object, always truthy
-            | .doc _ | .str _ => if key = "$not" then .ok true else .error .opFail
+              else norApply qs d
+            | .doc _ | .str _ => .error .opFail
             | _ => .error .typeErr)
           if ok then applyFields rest d else pure false
       else if key = "$expr" then do
@@ -329,7 +334,7 @@ mutual
       let cs ← candsKey key d
       let keys := dkeys fs
       let neg := keys.contains "$ne" || keys.contains "$nin"
-      let pos := keys.any (fun k => k != "$ne" && k != "$nin")
+      let pos := keys.isEmpty || keys.any (fun k => k != "$ne" && k != "$nin")
       if pyEq search (.doc [("$exists", .bool false)]) && cs.isEmpty then pure true
       else do
         let pre ← (if keys.contains "$all" then allPre fs (.list cs) else pure true)
@@ -378,10 +383,12 @@ mutual
 
   /-- `_all_op(doc_val, search_val)` -/
   def allOp : Val → AllArg → R Bool
-    | .arr xs, a => do
-      let a' ← allArgNorm a
-      let ms ← allItems xs a'
-      pure (ms.all id)
+    | .arr xs, a =>
+      if xs.isEmpty then pure false        -- an empty `$all` array matches nothing
+      else do
+        let a' ← allArgNorm a
+        let ms ← allItems xs a'
+        pure (ms.all id)
     | .doc fs, a => do
       let a' ← allArgNorm a
       pure ((dkeys fs).all (fun k => pyInOpt (.str k) a'.forced))
